@@ -32,6 +32,9 @@ ASSUMPTIONS = ['labels are reals; construction forms, spellings and algebras are
 BOUNDS = {'quick': 'default bases d<=4 and custom bases (named + sampled), graded on/off; all key subsets d<=2, sampled above; every permutation spelling up to 4 generators',
           'thorough': 'more sampled subsets and custom bases, d=5'}
 OUTSIDE = ['generator names beyond single hex digits', 'array-valued coefficients (C16)']
+LABEL_MOVEMENT = True
+RULE = ('cases are enumerated/seeded deterministically; a case is non-trivial when it moved at least one symbolic label through the real code '
+        '(data-movement identities are mostly decided by syntactic identity of the solver terms, the rest by a z3 query)')
 OPTS = {'rlimit': 100_000_000, 'canary_every': 10}
 EXPLANATION = __doc__
 
